@@ -70,7 +70,7 @@ Fixpoint directive_map_get (s : sdocument) (n : name) : option directive_def :=
   end.
 
 Definition default_schema_def : schema_def :=
-  {| sd_query := Some "Query"; sd_mutation := None; sd_subscription := None |}.
+  {| sd_query := Some "Query"; sd_mutation := Some "Mutation"; sd_subscription := Some "Subscription" |}.
 
 Fixpoint find_schema_def (s : sdocument) : option schema_def :=
   match s with
